@@ -1,6 +1,6 @@
 (* C04 — theorems (statements only; proofs in Proofs*.v). *)
 From Coq Require Import NArith List Bool.
-From LTV.C04 Require Import ParamsGen Model Proofs ProofsTrace ProofsVoid.
+From LTV.C04 Require Import ParamsGen Model Proofs ProofsTrace ProofsVoid ProofsLive.
 Import ListNotations.
 Open Scope N_scope.
 
@@ -98,6 +98,69 @@ Theorem request_wanted_now_refuted :
   exists evs s s', run s0 evs = Some s /\ accept s (SRequest 0 0 16384 16384) = Some s' /\ getb (s_wanted s) 0 = false.
 Proof. exact ProofsVoid.request_wanted_now_refuted. Qed.
 Print Assumptions request_wanted_now_refuted.
+
+(* ---- what the repaired liveness mechanisms guarantee (liveness layer xaccept over the same traces) ---- *)
+Theorem xrun_refines_run : forall evs x x', xrun x evs = Some x' -> run (x_s x) evs = Some (x_s x').
+Proof. exact ProofsLive.xrun_run. Qed.
+Print Assumptions xrun_refines_run.
+
+Theorem interested_unchoked_is_queued : fix_update_interested_queues = true ->
+  forall plen total comp w evs x p c,
+  xrun (xinit plen total comp w) evs = Some x ->
+  get_conn (x_s x) p = Some c -> dint x p = true -> c_unchoked c = true -> dq x p = true.
+Proof. exact ProofsLive.interested_unchoked_is_queued. Qed.
+Print Assumptions interested_unchoked_is_queued.
+
+Theorem have_raises_interest : fix_have_listed_raises = true ->
+  forall x p c i x', inv_queued x ->
+  get_conn (x_s x) p = Some c -> xaccept x (Have p i) = Some x' ->
+  getb (c_have c) i = false -> all_done (x_s x) = false ->
+  getb (s_completed (x_s x)) i = false ->
+  (memN i (s_active (x_s x)) = true \/ getb (s_wanted (x_s x)) i = true) ->
+  (p < length (x_dl x))%nat ->
+  dint x' p = true /\ (c_unchoked c = true -> dq x' p = true).
+Proof. exact ProofsLive.have_raises_interest. Qed.
+Print Assumptions have_raises_interest.
+
+Theorem choke_leaves_nothing_live : choke_checks_stalled = true ->
+  forall s p c s', get_conn s p = Some c -> accept s (Choke p) = Some s' ->
+  exists c', get_conn s' p = Some c' /\ c_q c' = [] /\ c_u c' = [] /\ c_s c' = [] /\
+    (forall e, In e (c_q c ++ c_u c ++ c_s c) -> In e (c_c c')).
+Proof. exact ProofsLive.choke_leaves_nothing_live. Qed.
+Print Assumptions choke_leaves_nothing_live.
+
+Theorem choke_then_timer_empty : choke_checks_stalled = true ->
+  forall s p c s1 s2, get_conn s p = Some c -> accept s (Choke p) = Some s1 -> accept s1 (DropChoked p) = Some s2 ->
+  exists c2, get_conn s2 p = Some c2 /\ c_q c2 = [] /\ c_u c2 = [] /\ c_s c2 = [] /\ c_c c2 = [].
+Proof. exact ProofsLive.choke_then_timer_empty. Qed.
+Print Assumptions choke_then_timer_empty.
+
+Theorem pipe_counts_only_valid : fix_pipe_counts_valid = true ->
+  forall c aggr rate, (forall e, In e (c_q c) -> e_valid e = false) ->
+  pipe_has_room c (calculate_pipe_size aggr rate) = true.
+Proof. exact ProofsLive.pipe_counts_only_valid. Qed.
+Print Assumptions pipe_counts_only_valid.
+
+Theorem interest_loss_justified : forall x p x', xaccept x (LoseInterest p) = Some x' ->
+  exists c, get_conn (x_s x) p = Some c /\ dint x p = true /\ c_unchoked c = true /\
+    interested_in_active (x_s x) c = false /\
+    (delegatable (x_s x) c = false \/ 0 < queued_for_pipe c \/ min_gate <= pipe_size c).
+Proof. exact ProofsLive.interest_loss_justified. Qed.
+Print Assumptions interest_loss_justified.
+
+Theorem interest_kept_while_requestable : fix_pipe_counts_valid = true ->
+  forall x p c i k, get_conn (x_s x) p = Some c ->
+  (N.to_nat i < length (s_completed (x_s x)))%nat -> (k < N.to_nat (nblocks (x_s x) i))%nat ->
+  blk_ok (x_s x) c i (N.of_nat k * block_size) = true ->
+  (forall e, In e (c_q c) -> e_valid e = false) -> pipe_size c < min_gate ->
+  xaccept x (LoseInterest p) = None.
+Proof. exact ProofsLive.interest_kept_while_requestable. Qed.
+Print Assumptions interest_kept_while_requestable.
+
+Theorem fixes_present_now :
+  fix_update_interested_queues = true /\ fix_have_listed_raises = true /\ choke_checks_stalled = true /\ fix_pipe_counts_valid = true.
+Proof. exact ProofsLive.fixes_present_now. Qed.
+Print Assumptions fixes_present_now.
 
 Theorem params_ok_now : params_ok = true.
 Proof. exact Proofs.params_ok_now. Qed.
